@@ -548,6 +548,41 @@ class Discharger:
             return None
         return "arguments are ASCII: " + ", ".join(descs)
 
+    def found_index(self, f, e, base):
+        """e is the position `str::find` / `rfind` / `Iterator::position` answered for a search in `base` (carried through Option / Result
+        plumbing only) -> (the search call, byte length of an ASCII literal pattern or None)"""
+        hit = None
+        for z in origin_walk(e):
+            if z[0] == "call":
+                if re.search(r"<impl str>::r?find$|<impl \[T\]>::iter.*position$|Iterator>?::position$|memchr", z[1]) and z[2]:
+                    if hit is not None:
+                        return None
+                    hit = z
+                elif not re.search(r"::(ok_or|ok_or_else|branch|unwrap|expect|map_err|ok|from_residual)$", z[1]):
+                    if hit is None:
+                        return None
+            elif z[0] in ("binop", "unop", "local", "unknown"):
+                return None
+        if hit is None:
+            return None
+        def strip(x):
+            for _ in range(8):
+                if x[0] in ("ref", "deref"):
+                    x = x[1]
+                else:
+                    break
+            return origin_str(x)
+        if strip(hit[2][0]) != strip(base):
+            return None
+        lit = None
+        if len(hit[2]) > 1 and hit[2][1][0] == "const":
+            c = hit[2][1][1]
+            if isinstance(c, str) and all(ord(ch) < 0x80 for ch in c):
+                lit = len(c)
+            elif isinstance(c, tuple) and len(c) == 2 and c[0] == "char" and isinstance(c[1], str) and len(c[1]) == 1 and ord(c[1]) < 0x80:
+                lit = 1                                     # a `char` pattern below 0x80
+        return hit, lit
+
     def guarded_index(self, f, bb, t):
         rn = t.get("res_name") or ""
         # the range operand
@@ -561,6 +596,9 @@ class Discharger:
         dom = f.dominators(False)
         if rname.endswith("RangeTo") and ro[2]:
             end = ro[2][0]
+            # `s[..i]` where i is where a search in s itself found its pattern: a match starts inside s, on a character boundary
+            if self.found_index(f, end, base):
+                return ("D-FOUND-INDEX", "`s[..i]` with i the position a search in the same string answered")
             # `buf[..n]` where n is the count a `read(&mut buf)` into the very same buffer returned (io::Read contract: n <= buf.len())
             def buffer_root(x):
                 y = x
@@ -638,6 +676,14 @@ class Discharger:
             return None
         if rname.endswith("RangeFrom") and ro[2]:
             start = ro[2][0]
+            # `s[i + k..]` where i is where a search in s itself found an ASCII pattern of k bytes: the match ends inside s, on a boundary
+            if start[0] == "binop" and start[1] in ("Add", "AddWithOverflow", "AddUnchecked") or (start[0] == "field" and start[1][0] == "binop" and start[1][1] == "AddWithOverflow"):
+                b_ = start if start[0] == "binop" else start[1]
+                for x_, k_ in ((b_[2], b_[3]), (b_[3], b_[2])):
+                    if k_[0] == "const" and isinstance(k_[1], int) and not isinstance(k_[1], bool):
+                        fi = self.found_index(f, x_, base)
+                        if fi and fi[1] is not None and k_[1] == fi[1]:
+                            return ("D-FOUND-INDEX", "`s[i + %d..]` just behind the %d-byte ASCII pattern a search in the same string found at i" % (k_[1], fi[1]))
             if start[0] == "const" and isinstance(start[1], int):
                 k = start[1]
                 # str slice after starts_with(literal) of at least k ASCII bytes on the same receiver
@@ -845,6 +891,9 @@ class Discharger:
                                     is_len = True
                     if is_len:
                         return ("D-LEN-PLUS-CONST", "a length of data held in memory plus a constant cannot overflow usize")
+                    if any(z[0] == "call" and re.search(r"<impl str>::r?find$|Iterator>?::position$", z[1]) for z in origin_walk(a)) and \
+                            not any(z[0] in ("binop", "local", "unknown") for z in origin_walk(a)):
+                        return ("D-LEN-PLUS-CONST", "a position inside data held in memory plus a constant cannot overflow usize")
         if from_local_reads(x[2]) or from_local_reads(x[3]):
             if x[1] == "SubWithOverflow":
                 # `remaining -= n`: n <= buffer length is only enough if the buffer is no longer than `remaining`
